@@ -233,7 +233,7 @@ def snappy(ctx):
                         if cname(t3).endswith('Decoder::decompress') and len(t3['args']) > 2:
                             oo = origin(cb, t3['args'][2])
                             outs |= {a for a in oo.atoms if a[0] == 'param'}
-                over = bool(outs) and {a for a in src.atoms if a[0] == 'param'} == outs
+                over = bool(outs) and {a for a in src.atoms if a[0] == 'param'} == outs and 'index' not in src.flags and 'subslice' not in src.flags and not src.has_arith()
                 # expected: from_be_bytes(read_const_size_buf::<4>) read AFTER the compressed slice
                 exp = None
                 for b2, t2 in st.calls():
